@@ -720,6 +720,49 @@ pub fn worker(ctx: &Ctx, mut wc: WorkerCtx, _extra: &[String]) {
         }
     }
 
+    // ---- G: giant sequences: a string introducer, 64 KiB .. 1.1 MB of one byte value, then a tail that does
+    // or does not terminate it (limits on sequence length are a favourite place for stale state)
+    {
+        let intros: [&[u8]; 6] = [b"\x1b[200~", b"\x1b]0;", b"\x1bP1$r", b"\x1b_Gi=1;", b"\x1b[", b"\x1b[<"];
+        let fills: [u8; 4] = [b'a', 0x80, b'1', b';'];
+        let lens: [usize; 5] = [65_535, 65_537, 1_048_575, 1_048_577, 1_100_000];
+        let tails: [&[u8]; 5] = [b"", b"\xc3A", b"\x1b\\", b"\x80", b"\x1b[201~z"];
+        for intro in intros {
+            for fill in fills {
+                for len in lens {
+                    for tail in tails {
+                        unit += 1;
+                        if unit % shards != shard {
+                            continue;
+                        }
+                        case += 1;
+                        if case <= resume {
+                            continue;
+                        }
+                        let mut s: Vec<u8> = intro.to_vec();
+                        s.extend(std::iter::repeat(fill).take(len));
+                        s.extend_from_slice(tail);
+                        let mut head = intro.to_vec();
+                        head.push(fill);
+                        head.extend_from_slice(format!("x{len}").as_bytes());
+                        head.extend_from_slice(tail);
+                        wc.begin_case(case, &descriptor(0, Which::Event, &head, &[0xff]));
+                        let n = s.len();
+                        let mut chunks = vec![];
+                        let mut left = n;
+                        while left > 0 {
+                            let c = left.min(65_536);
+                            chunks.push(c);
+                            left -= c;
+                        }
+                        check_and_report(&mut wc, &mut local, Which::Event, &s, &[vec![n], chunks], "long", false);
+                        wc.count("G_giant_sequences", 1);
+                    }
+                }
+            }
+        }
+    }
+
     // ---- E: edits of base tokens
     {
         let bases = base_tokens();
@@ -815,7 +858,7 @@ pub fn run(ctx: &Ctx) -> Result<Report, String> {
     let p = params(ctx.tier);
     let mut r = Report::new("exploration");
     r.set("evaluations", evaluations)
-        .set("distinct_nontrivial", c("H_tokens") + c("H_fixed") + c("N_values") + c("E_single_edits") + c("E_double_edits") + c("U_lattice"))
+        .set("distinct_nontrivial", c("H_tokens") + c("H_fixed") + c("N_values") + c("G_giant_sequences") + c("E_single_edits") + c("E_double_edits") + c("U_lattice"))
         .set(
             "rule",
             "every case is a distinct byte string (per decoder) fed whole, at every single cut, byte by byte and byte by byte with \
